@@ -1463,7 +1463,7 @@ func selMapArg(sel string) (string, bool) {
 }
 
 // extract -m page -p SEL … : directory (file mode) vs "-" (stdout mode), file and stdin input
-func runSelStdout(sel string, idx int, cfg string) *outcome {
+func runSelStdout(sel string, idx int, cfg string, both bool) *outcome {
 	rec := recipe{name: "sel-extract-page-stdout", args: []string{"extract", "-m", "page", "-p", sel, "IN", "-"}}
 	o := &outcome{rec: rec, variant: sel}
 	dir := filepath.Join(scratch, fmt.Sprintf("d%d", idx))
@@ -1482,7 +1482,10 @@ func runSelStdout(sel string, idx int, cfg string) *outcome {
 	for _, v := range []struct {
 		name, in string
 		stdin    []byte
-	}{{"file-in", "in.pdf", nil}, {"stdin-in", "-", sample}} {
+	}{{"stdin-in", "-", sample}, {"file-in", "in.pdf", nil}} {
+		if v.name == "file-in" && !both {
+			continue
+		}
 		sr := runBin(cfg, dir, v.stdin, "extract", "-m", "page", "-p", sel, v.in, "-")
 		input := fmt.Sprintf("pdfcpu extract -m page -p '%s' %s -   (6 page document; file mode wrote %d file(s), exit %d)", sel, v.in, len(ents), fr.exit)
 		fail := func(class, detail string) { o.fails = append(o.fails, [3]string{class, input, trunc(detail, 400)}) }
@@ -1808,7 +1811,7 @@ func main() {
 	var djobs []job
 	for i, sel := range selections {
 		i, sel := i, sel
-		djobs = append(djobs, func() *outcome { return runSelStdout(sel, i, cfg) })
+		djobs = append(djobs, func() *outcome { return runSelStdout(sel, i, cfg, thorough || (i+int(r.Seed))%3 == 0) })
 	}
 	n := 0
 	for ci, sc := range selCmds {
